@@ -694,6 +694,20 @@ def _work(modname: str) -> dict:
             res["outcomes"][k] = res["outcomes"].get(k, 0) + v
         if not res["samples"]:
             res["samples"].extend(r["samples"])
+    # vector wrappers against their law functions
+    from . import c02vec
+    for fname, fn in catalogue.functions(mod):
+        try:
+            r = c02vec.vector_function_cases(modname, mod, fname, fn, _BOUND > 1)
+        except Exception as ex:  # pylint: disable=broad-except
+            res["undecided"].append((f"{modname}.{fname}", f"vector-law driver: {type(ex).__name__}: "
+                f"{short(ex, 80)}"))
+            continue
+        for k in ("keys", "violations", "undecided"):
+            res[k].extend(r[k])
+        res["n"] += r["n"]
+        for k, v in r["outcomes"].items():
+            res["outcomes"][k] = res["outcomes"].get(k, 0) + v
     # vector pairs
     try:
         pairs = vector_pairs(mod)
@@ -749,7 +763,9 @@ def main(run: Run) -> int:
         rule="per calculation function: default tuple + every tuple within <= k deviations "
         "(magnitude x1e3, x1e-3, sign; spelling kilo, milli, cm-g-min) + all-parameters respelled; "
         "distinct = distinct (function, deviation set) keys whose call returned; vector laws: every "
-        "ordered pair of forms solved for different unknowns x vector length 1..3; field-law "
+        "ordered pair of forms solved for different unknowns x vector length 1..3; vector wrappers "
+        "against their law function over all products of 7 direction patterns x optional-argument "
+        "menus; field-law "
         "modules: every field of the polynomial menu against the law written in the module header",
         exhaustive=True,
         assumptions=["residual judged at 1e-6 relative (or a sign change within 1e-9 of the output)",
@@ -761,6 +777,9 @@ def replay(case: dict) -> list[str]:
     if case.get("fields"):
         from . import c02fields
         return c02fields.replay(case)
+    if case.get("vector_law"):
+        from . import c02vec
+        return c02vec.replay(case)
     mod = catalogue.load(case["module"])
     if "pair" in case:
         fs = dict(catalogue.functions(mod))
